@@ -472,6 +472,7 @@ var specBounds = []specBound{
 	{"parseCharacterEscape", ">=", 9, 1, "decimal character reference: 1–7 digits", nil, "C07"},
 	{"parseCodeFence", "<=", 2, 2, "code fence: at least three fence characters (line length and run length)", nil, "C15"},
 	{"parseThematicBreak", "<=", 2, 1, "thematic break: at least three characters", nil, "C15"},
+	{"parseListMarker", "iter<=", 9, 1, "ordered list marker: 1–9 digits (the list-marker block spans what this recogniser accepts)", []string{">=11"}, "C13"},
 }
 
 // thresholdsOf normalises every comparison of a non-constant integer with a constant in fn to (dir, T).
